@@ -169,5 +169,11 @@ func redactEmailCheckNumber(s string) bool {
 	if last := s[len(s)-1]; last < '0' || last > '9' {
 		return false
 	}
+	// digits at both ends are not enough, e.g. bob@163.com_2024: a number has only digits and dots in between
+	for i := 1; i < len(s)-1; i++ {
+		if c := s[i]; (c < '0' || c > '9') && c != '.' {
+			return false
+		}
+	}
 	return true
 }
